@@ -64,13 +64,14 @@ contract(f"{B}::UserSessionManager._logout", props=["C16", "C05"],
          allocates=True)
 
 contract(f"{B}::UserSessionManager.local_logout", props=["C16"], requires=["self.parent is not None", "self.parent.terminal is not None"],
-         ensures=[("ended", "implies(old(usm_can_act(self)), self.local_session is None)")],
+         ensures=[("ended", "implies(old(usm_can_act(self)), self.local_session is None)"),
+                  ("remote_sessions_untouched", "same_dict(self.remote_sessions)")],
          modifies=["self.local_session", "self.remote_sessions{*}", "self.historic_sessions[*]", "UserSession.end_step", "self.parent.terminal._connections{*}"],
          allocates=True)
 
-# UserSessionManager._logout_user (all sessions of a user end on a password change) is NOT under contract: its inductive
-# invariant over the session map does not discharge within budget (see DESIGN.md); the repaired behaviour is covered only
-# by the system replay findings/round0_replays.py F4.
+# UserSessionManager._logout_user (all sessions of a user end on a password change): its contract is ASSUMED at call sites (the
+# inductive invariant over the session map does not discharge within budget) and backed by a BOUNDED check with at most two
+# remote sessions (`_logout_user#bounded` at the end of this file) and by the system replay findings/round0_replays.py F4.
 
 contract(f"{B}::UserSessionManager._login", props=["C16"],
          requires=["self.parent is not None", "self.parent.terminal is not None", "self.software_manager is not None",
@@ -83,7 +84,7 @@ contract(f"{B}::UserSessionManager._login", props=["C16"],
          modifies=["heap"], allocates=True)
 
 contract(f"{B}::UserSessionManager._logout_user", verify=False,
-         note="ASSUMED (not proved, see above): ends every remote session and the local session of the user",
+         note="ASSUMED (bounded evidence only, see above): ends every remote session and the local session of the user",
          ensures=["forall(j, 0, len(self.remote_sessions), dict_val(self.remote_sessions, j).user is not user)"],
          modifies=["self.local_session", "self.remote_sessions{*}", "self.historic_sessions[*]", "UserSession.end_step", "Terminal._connections"],
          emits=[("logout_user", ["self", "user"])], allocates=True)
@@ -140,3 +141,15 @@ contract(f"{TE}::Terminal._process_local_login", props=["C16"],
          modifies=["heap"], allocates=True)
 inline(f"{B}::UserManager._is_last_admin", f"{B}::UserManager.admins", f"{B}::UserManager.disabled_admins")
 
+
+# bounded evidence (<= 2 remote sessions) for the ASSUMED contract of _logout_user above: no session of the user is left
+contract(f"{B}::UserSessionManager._logout_user#bounded", props=["C16"], bounded=2, types={"user": "User"},
+         requires=["self.parent is not None", "self.parent.terminal is not None",
+                   "forall(j, 0, len(self.remote_sessions), dict_key(self.remote_sessions, j) == dict_val(self.remote_sessions, j).uuid"
+                   " and not dict_val(self.remote_sessions, j).local)",
+                   "forall(a, 0, len(self.remote_sessions), forall(b, 0, len(self.remote_sessions), implies(a != b,"
+                   " dict_val(self.remote_sessions, a) is not dict_val(self.remote_sessions, b))))",
+                   "usm_can_act(self)", "self.parent.terminal._connections is not self.remote_sessions"],
+         ensures=[("no_session_of_the_user_left", "forall(j, 0, len(self.remote_sessions), dict_val(self.remote_sessions, j).user is not user)"
+                                                  " and (self.local_session is None or self.local_session.user is not user)")],
+         modifies=["heap"], allocates=True)
